@@ -204,6 +204,10 @@ func init() {
 			for k, v := range ev4 {
 				ev[k] = v
 			}
+			// thousands of well-formed messages for heights the node then jumps over by node sync: the future cache must keep working
+			fs5, ev5 := unit.C17LagEpisodesFor(run, "C12", "future-cache-disabled-after-many-discarded-messages")
+			ev["lag_and_sync_episodes"] = ev5
+			fs4 = append(fs4, fs5...)
 			return append(append(append(fs, fs2...), fs3...), fs4...), ev, append(append(append(inc, inc2...), inc3...), inc4...)
 		}})
 	reg(&sim.SimCheck{Prop: "C13", Workload: "c13", Profile: func(th bool) *sim.Profile {
